@@ -1,7 +1,7 @@
 (* C17 property theorems: ONLY statements closed by `exact`, each followed by Print Assumptions. *)
 From Coq Require Import ZArith Reals List Bool.
 From Flocq Require Import Core BinarySingleNaN.
-From DuneV Require Import C17_Model C17_Spec C17_Proofs C17_Proofs_Cmp C17_Proofs_Int.
+From DuneV Require Import C17_Model C17_Spec C17_Spec_Round C17_Proofs C17_Proofs_Cmp C17_Proofs_Int C17_Proofs_BinFix C17_Proofs_Round.
 Import ListNotations.
 
 (* ---- comparison algebra: every IEEE binary format (prec, emax), every style, all finite a b, every finite eps >= 0;
@@ -90,7 +90,7 @@ Theorem C17_power :
 Proof. exact C17_power_lemma. Qed.
 Print Assumptions C17_power.
 
-(* binomial: the Pascal-triangle value for 0 <= k <= n under the guard that n!/(n-k')! (k' = min(k,n-k)) is representable *)
+(* binomial AS FOUND: the Pascal-triangle value for 0 <= k <= n under the guard that n!/(n-k')! (k' = min(k,n-k)) is representable *)
 Theorem C17_binomial :
   forall (t : c17_ity) (n k : Z),
   0 <= k <= n ->
@@ -138,6 +138,29 @@ Theorem C17_binomial_unsigned_refuted :
 Proof. exact C17_binomial_unsigned_refuted_lemma. Qed.
 Print Assumptions C17_binomial_unsigned_refuted.
 
+(* ---- binomial AFTER fixes/C17-1.patch (gcd-reduced incremental product, `k > n-k`): the property's statement at full strength:
+        the exact value whenever C(n,k) is representable in T (any signedness / width); n is a value of T ---- *)
+Theorem C17_binomial_exact :
+  forall (t : c17_ity) (n k : Z),
+  0 <= k <= n -> c17_inrange t 0 = true -> c17_inrange t n = true ->
+  c17_inrange t (c17_spec_binomial n k) = true ->
+  c17_binomial_fix t n k = C17_Val (c17_spec_binomial n k).
+Proof. exact C17_binomial_exact_lemma. Qed.
+Print Assumptions C17_binomial_exact.
+
+Theorem C17_binomial_exact_outside :
+  forall (t : c17_ity) (n k : Z), k < 0 \/ n < k -> c17_binomial_fix t n k = C17_Val 0.
+Proof. exact C17_binomial_fix_outside_lemma. Qed.
+Print Assumptions C17_binomial_exact_outside.
+
+Example C17_binomial_exact_witnesses :
+  c17_binomial_fix (C17_Ity true 32) 18 9 = C17_Val 48620 /\
+  c17_binomial_fix (C17_Ity false 32) 18 9 = C17_Val 48620 /\
+  c17_binomial_fix (C17_Ity true 64) 40 20 = C17_Val 137846528820 /\
+  c17_binomial_fix (C17_Ity true 32) 33 16 = C17_Val 1166803110 /\
+  c17_binomial_fix (C17_Ity false 32) 2147483649 2147483648 = C17_Val 2147483649.
+Proof. exact C17_binomial_fix_witnesses_lemma. Qed.
+
 Theorem C17_binomial_fast_agrees_upto_16 :
   forallb (fun n => forallb (fun k => c17_spec_binomial_fast n (k - 1) =? c17_spec_binomial n (k - 1))
                             (map Z.of_nat (seq 0 19))) (map Z.of_nat (seq 0 17)) = true.
@@ -161,9 +184,50 @@ Theorem C17_classifiers : forall (prec emax : Z) (v : list (binary_float prec em
 Proof. exact C17_classifiers_lemma. Qed.
 Print Assumptions C17_classifiers.
 
-(* NOT PROVED (kept visible, see DESIGN 4/C17 `C17_trunc_round`):
-     for every format, finite val and eps >= 0, I large enough:  c17_trunc / c17_round return an integer z with
-     c17_spec_trunc_ok / c17_spec_round_ok prec emax r s eps val z = true  whenever |val| < 2^(prec-1).
-   The statement is FALSE beyond 2^prec (F-C17-2: trunc returns val+1 with eps = 0) and for unsigned I with
-   -1/2 < val < 0 (F-C17-3); both are reproduced on the implementation and reported as known findings.
-   The tie for round/trunc is the bit-exact differential check plus the exact-rational oracle. *)
+(* ---- C17_trunc_round: FloatCmp::trunc / round AFTER fixes/C17-2.patch (round at the limits of I) and fixes/C17-3.patch
+        (integral val returned unchanged), over Flocq, EVERY format (prec, emax), every integer type, compare style,
+        rounding style, every finite val and finite eps >= 0.  Hypotheses are only what C++ needs to be defined:
+        trunc: floor(val) (and floor(val)+1 if val is not integral) are values of I;  round: the cast I(val) is defined.
+        c17_trunc_post / c17_round_post (C17_Spec_Round.v) are the documented results; the `_plain` theorems give the
+        reading "floor or ceiling of val, within 1 of val, away from the real truncated value only if tolerantly equal". ---- *)
+Local Close Scope Z_scope.
+Theorem C17_trunc_round :
+  forall (prec emax : Z) (Hp : Prec_gt_0 prec) (Hm : Prec_lt_emax prec emax)
+         (r : c17_rstyle) (t : c17_ity) (s : c17_cstyle) (eps val : binary_float prec emax),
+  is_finite eps = true -> (0 <= B2R eps)%R -> is_finite val = true ->
+  (c17_inrange t (Zfloor (B2R val)) = true ->
+   (IZR (Zfloor (B2R val)) <> B2R val -> c17_inrange t (Zfloor (B2R val) + 1) = true) ->
+   exists z, c17_trunc_fix prec emax Hp Hm r t s eps val = C17_Val z /\
+             c17_trunc_post prec emax Hp Hm (c17_dir_down prec emax r val) t s eps val z) /\
+  (c17_inrange t (Ztrunc (B2R val)) = true ->
+   exists z, c17_round_fix prec emax Hp Hm r t s eps val = C17_Val z /\
+             c17_round_post prec emax Hp Hm (negb (c17_dir_down prec emax r val)) t s eps val z).
+Proof. exact C17_trunc_round_lemma. Qed.
+Print Assumptions C17_trunc_round.
+
+Theorem C17_trunc_plain :
+  forall (prec emax : Z) (Hp : Prec_gt_0 prec) (Hm : Prec_lt_emax prec emax)
+         (down : bool) (t : c17_ity) (s : c17_cstyle) (eps val : binary_float prec emax) (z : Z),
+  c17_trunc_post prec emax Hp Hm down t s eps val z ->
+  (c17_signed t = false /\ z = 0%Z /\ c17_eq prec emax Hp Hm s eps val (c17_fzero prec emax) = true) \/
+  ((z = Zfloor (B2R val) \/ z = Zceil (B2R val)) /\ (Rabs (IZR z - B2R val) < 1)%R /\
+   (z <> (if down then Zfloor (B2R val) else Zceil (B2R val)) ->
+    c17_eq prec emax Hp Hm s eps (c17_of_Z prec emax Hp Hm z) val = true /\ B2R (c17_of_Z prec emax Hp Hm z) = IZR z)).
+Proof. exact C17_trunc_fixed_plain_lemma. Qed.
+Print Assumptions C17_trunc_plain.
+
+Theorem C17_round_plain :
+  forall (prec emax : Z) (Hp : Prec_gt_0 prec) (Hm : Prec_lt_emax prec emax)
+         (up : bool) (t : c17_ity) (s : c17_cstyle) (eps val : binary_float prec emax) (z : Z),
+  c17_round_post prec emax Hp Hm up t s eps val z ->
+  (z = Zfloor (B2R val) \/ z = Zceil (B2R val)) /\ (Rabs (IZR z - B2R val) < 1)%R.
+Proof. exact C17_round_fixed_plain_lemma. Qed.
+Print Assumptions C17_round_plain.
+
+(* the former witnesses of F-C17-2 / F-C17-3 on the fixed model (binary64 / binary32), and the as-found model on the same inputs *)
+Example C17_trunc_round_witnesses :
+  c17_trunc 53 1024 c17_Hprec64 c17_Hmax64 C17_Downward (C17_Ity true 64) C17_Absolute (c17_ex_f64 0) (c17_ex_f64 0x4340000000000000) = C17_Val 9007199254740993%Z /\
+  c17_trunc_fix 53 1024 c17_Hprec64 c17_Hmax64 C17_Downward (C17_Ity true 64) C17_Absolute (c17_ex_f64 0) (c17_ex_f64 0x4340000000000000) = C17_Val 9007199254740992%Z /\
+  c17_round 53 1024 c17_Hprec64 c17_Hmax64 C17_TowardZero (C17_Ity false 32) C17_RelWeak (c17_ex_f64 0x3cb0000000000000) (c17_ex_f64 0xbfb5c28f5c28f5c3) = C17_Val 4294967295%Z /\
+  c17_round_fix 53 1024 c17_Hprec64 c17_Hmax64 C17_TowardZero (C17_Ity false 32) C17_RelWeak (c17_ex_f64 0x3cb0000000000000) (c17_ex_f64 0xbfb5c28f5c28f5c3) = C17_Val 0%Z.
+Proof. exact C17_trunc_round_witnesses_lemma. Qed.
